@@ -26,6 +26,7 @@ Inside an extract block the lines are annotation sub-directives:
    requires / ensures / decreases / recommends ... (contract text, spliced between signature and body; E2)
        a trailing `// [label]` names the clause (obligation name)
    @loop N            following lines: invariant/decreases text spliced before the N-th loop body (E3)
+   @sync-around-all <lit> ... @then ...     rule E16 around *every* statement starting with <lit> (lines before, then lines after)
    @sync-before <lit> / @sync-after <lit>   rule E16: insert `alias_sync(&mut x, &y);` (and nothing else) around a collaborator call
    @block-end <lit>   following lines: ghost text inserted before the closing brace of the block that opens after <lit>
    @loop-end N        following lines: ghost text inserted before the closing brace of the N-th loop's body
@@ -559,6 +560,13 @@ def parse_block(lines):
             ent = [s[len("@block-end "):].strip(), []]
             blk["blockends"].append(ent)
             cur = ent[1]
+        elif s.startswith("@sync-around-all "):
+            ent = [s.split(" ", 1)[1].strip(), [], []]
+            blk.setdefault("syncaround", []).append(ent)
+            cur = ent[1]
+        elif s.startswith("@then"):
+            # second half of a @sync-around-all block: the lines to put after the statement
+            cur = blk["syncaround"][-1][2]
         elif s.startswith("@sync-before ") or s.startswith("@sync-after "):
             key = "before" if s.startswith("@sync-before ") else "after"
             ent = [s.split(" ", 1)[1].strip(), [], "sync"]
@@ -764,6 +772,31 @@ def transform_fn(text, opts, blk, log, what, in_trait_impl):
             ins = "\x01".join(l.rstrip() for l in blk["loops"][n] if l.strip())
             body = body[:offs[n - 1]] + "\x01" + ins + "\x01" + body[offs[n - 1]:]
             log.append(f"E3 loop {n} invariant spliced")
+    for lit, before_lines, after_lines in blk.get("syncaround", []):
+        # rule E16 applied to every call statement that starts with <literal> (at least one must exist)
+        check_sync(before_lines, what)
+        check_sync(after_lines, what)
+        pat = ws_pattern(lit)
+        mb = mask(body)
+        hits = [h for h in pat.finditer(mask_comments(body)) if mb[h.start()] == body[h.start()]]
+        if not hits:
+            raise ExtractError("rewrite-miss", f"{what}: @sync-around-all `{lit}` does not occur")
+        for h in reversed(hits):
+            depth = 0
+            j = h.start()
+            while j < len(mb):
+                ch = mb[j]
+                if ch in OPEN:
+                    depth += 1
+                elif ch in CLOSE:
+                    depth -= 1
+                elif ch == ";" and depth == 0:
+                    break
+                j += 1
+            pre = "\x01".join(l.strip() for l in before_lines if l.strip())
+            post = "\x01".join(l.strip() for l in after_lines if l.strip())
+            body = body[:h.start()] + pre + "\x01" + body[h.start():j + 1] + "\x01" + post + "\x01" + body[j + 1:]
+        log.append(f"E16 alias synchronisation around {len(hits)} call(s) `{lit}`")
     for ent in blk["before"]:
         lit, lines = ent[0], ent[1]
         if len(ent) > 2:
